@@ -32,7 +32,7 @@ func init() {
 		Real:     []string{"seehuhn.de/go/pdf NewReader, xref table/stream/hybrid reading, /Prev chain, object streams, scanner, ReadStreamData (working tree)"},
 		Stub:     []string{"history serialiser (revwriter)", "io.ReaderAt personality"},
 		Quick:    core.Budget{Runs: 100000, Secs: 150},
-		Thorough: core.Budget{Runs: 5000000, Secs: 1500},
+		Thorough: core.Budget{Runs: 5000000, Secs: 900},
 		Run:      Run,
 		Corners:  corners,
 	})
